@@ -62,6 +62,17 @@ def upvar(name=None):
     return lambda e: isinstance(e, tuple) and e[0] == 'upvar' and (name is None or e[1] == name)
 
 
+def captured(exk, src_pat):
+    """a captured variable of the closure whose Ex is `exk` such that the captured value, as an
+    expression of the parent function, matches src_pat (independent of variable names)"""
+    def p(e):
+        if not (isinstance(e, tuple) and e[0] == 'upvar' and len(e) > 2):
+            return False
+        src = exk.upvar_source(e[2])
+        return src is not None and src_pat(src)
+    return p
+
+
 def var(name=None):
     return lambda e: isinstance(e, tuple) and e[0] == 'var' and (name is None or e[1] == name)
 
